@@ -34,9 +34,10 @@ func init() {
 			{ID: "C09-R8", Title: "VMs are not shared through process-wide containers", Floor: 1, Run: vmNotPooled},
 			{ID: "C09-R9", Title: "shared maps are not written under a read lock", Floor: 1, Run: noWritesUnderReadLock},
 			{ID: "C09-R10", Title: "no package-level standard-library object that is unsafe for concurrent use", Floor: 1, Run: noSharedUnsafeStdlibObjects},
-			{ID: "C09-R11", Title: "references shared with clones are not written through (shared with C07)", Floor: 3, Run: cloneAliasesNotWrittenThrough},
+			{ID: "C09-R11", Title: "references shared with clones are not written through (shared with C07)", Floor: 1, Run: cloneAliasesNotWrittenThrough},
 			{ID: "C09-R12", Title: "a deferred Unlock finds its mutex locked on every path (shared with C03)", Floor: 5, Run: deferredUnlockFindsLockHeld},
 			{ID: "C09-R13", Title: "thread result published before done (shared with C10-R3)", Floor: 2, Run: c10r3},
+			{ID: "C09-R14", Title: "the state of an iteration is per consumer (shared with C10)", Floor: 5, Run: iterationStateIsPerConsumer},
 		},
 	})
 }
